@@ -703,6 +703,11 @@ pub(crate) fn parse_time_part(
 fn parse_month(length: usize, string: &mut String) -> Result<Option<ParsedPart>, AstrolabeError> {
     Ok(match length {
         1 | 2 => {
+            // `M` formats October to December with two digits
+            let length = match string.chars().nth(1) {
+                Some(char) if length == 1 && char.is_ascii_digit() => 2,
+                _ => length,
+            };
             let month = pick_part::<u32>(length, string, "month")?;
 
             Some(ParsedPart {
@@ -869,8 +874,9 @@ fn parse_zone(
                 })
             }
         },
-        5 => match string.chars().nth(4) {
-            Some(char) if char.is_ascii_digit() => {
+        // Seconds are only present if the minutes are followed by another colon and a digit
+        5 => match (string.chars().nth(3), string.chars().nth(4)) {
+            (Some(':'), Some(char)) if char.is_ascii_digit() => {
                 // Using unwrap because it's safe to assume that the string is long enough
                 remove_part(1, string).unwrap();
                 let minute = pick_part::<u32>(2, string, "timezone minute")?;
